@@ -197,6 +197,8 @@ def cmp_tot(a, b, rel):
 def conv_check(ctx, db, desc, blk, wdb):
     """→ ('ok'|'skip'|'bad', detail). Everything the model needs is read from the input text and the database text; the engine's
     own reading (description, number, canonical units, `as`, stored gfw, master weight) is compared with the model's."""
+    if blk and blk[0].startswith(("LOADFAIL", "CRASH")):
+        return "bad", "the engine cannot load its database / crashed: " + blk[0]
     im = parse_impl_conv(blk)
     if im["S"] is None:
         return "skip", "no callback (run failed before the initial solution was punched): " + im["err"][-120:]
@@ -380,6 +382,8 @@ def parse_sol(w):
 
 def mix_check(ctx, text, lines, blk):
     got = {"SOL": [], "AM": None, "CM": None, "MU": None, "MIX": None}
+    if blk and blk[0].startswith(("LOADFAIL", "CRASH")):
+        return "bad", "the engine cannot load its database / crashed: " + blk[0]
     for ln in blk:
         w = ln.split()
         if w[0] == "MIXRUN" and w[1] != "0":
@@ -463,7 +467,7 @@ def parse_run(blk):
             rows.append(w[1:])
         elif w[0] == "ERR":
             err = unhex(w[1])[-300:]
-        elif w[0] == "CRASH":
+        elif w[0] in ("CRASH", "LOADFAIL"):
             return "crash", [], ln
     return rc, rows, err
 
@@ -872,6 +876,17 @@ def run(ctx):
                        "transformed input over 7 system kinds x 11 transformation families compared cell by cell through "
                        "GetSelectedOutputValue; distinct = cases that ran and were judged (skips: runs ending with an ERROR in both "
                        "descriptions).")
+    judged = {"convert_units": cstat["ok_first"] + cstat["ok_iter"], "mixing": mstat["ok_pos"] + mstat["ok_neg"],
+              "pairs": sum(v["ok"] for v in pstat.values())}
+    ctx.cov["judged"] = judged
+    if not ctx.violations and not corr_fail and min(judged.values()) < 1:
+        corr_fail.append(("nothing could be judged in " + ", ".join(k for k, v in judged.items() if v == 0)
+                          + " (every case was skipped): the check is vacuous on this tree", {"kind": "vacuous", "judged": judged}))
+    skipped = cstat["skip"] + mstat["skip"] + sum(v["skip"] for v in pstat.values())
+    ctx.cov["skipped"] = skipped
+    if not ctx.violations and not corr_fail and skipped > 0.2 * (n1 + n2 + n3):
+        corr_fail.append((f"{skipped} of {n1 + n2 + n3} cases ended with an ERROR in both descriptions and were not judged: generated inputs that "
+                          "run on the unchanged tree no longer run", {"kind": "vacuous", "skipped": skipped}))
     corr = [c for c in corr_fail if c]
     if corr and not ctx.violations:
         ctx.violation(corr[0][0] + " — no pair of equivalent descriptions with different results was found",
@@ -916,21 +931,37 @@ def replay(ctx, data):
 
 
 MANIFEST = dict(
-    technique="Lean 4 theorems about executable Rat models of convert_units and of the mixing algebra (name-keyed ordered maps = "
-              "Std.ExtTreeMap); in-process correspondence with the real convert_units / add_mix at 1e-12; metamorphic pairs on the engine",
+    technique="Lean 4 theorems about executable Rat models of convert_units (with the text layer: check_units, concentration-line reader, "
+              "formula weights, SOLUTION_SPREAD cells) and of the mixing algebra (name-keyed ordered maps = Std.ExtTreeMap); in-process "
+              "correspondence with the real convert_units / check_units / add_mix at 1e-12; metamorphic pairs on the engine",
     text="Theorems (Properties/C15.lean, all inputs): unit_equivalence (same amounts in Mol/mMol/uMol/g/mg/ug(/eq) per kg water, chosen "
          "per element, weight from master species / `as` formula incl. alkalinity-as-CaCO3 / -gfw, give the same totals map; also within "
          "the per-litre and per-kg-solution families when equivalents stay equivalents), unit_equivalence_kgw, alkalinity_as_CaCO3, "
          "gfw_override, water_scaling (+ molality invariance), map_order_irrelevant, convert_order_irrelevant, redefinition_idempotent, "
-         "convert_ignores_prior, convert_idempotent, read_mix_perm, read_mix_self, mix_perm, self_mix, mix_water_scaling, mix_fraction_scaling; kernel-evaluated "
-         "instances. Correspondence: totals left by the real convert_units in real initial-solution runs, real add_mix / cxxSolution(mix) / "
-         "multiply on real stored solutions vs pmodel units (1e-12 rel). Exploration: base/transformed input pairs on the real engine for "
-         "units, water factor 1e-3..1e3, line and block permutations, renumbering, repeated lines/blocks, SOLUTION_SPREAD, MIX reorder, self-mix (split lines, copies, any total amount), common factor on all fractions, "
-         "nested mixing orders with SAVE vs the direct n-way mix — mixed analyses are not charge balanced and hold unequal water — over speciation, batch, exchange, surface, gas, kinetics, mix (1e-8 rel, extensive × k).",
-    note="Trusted: harness/ph_units.cpp (friend access, BASIC callback), tools/gens/units.py (database reading of element weights, formula "
-         "parser, spelling→canonical table cross-checked against the engine's report every run), comparison logic. Partial: check_units "
-         "string canonicalisation and the formula parser are python-side tables tied by correspondence, not Lean models; invariance of the "
-         "Newton solve itself is exploration only; pe is not compared (without a redox couple it is not determined by the input); floors (from the solver's "
-         "acceptance criteria, see floor_for): totals/molalities 1e-8·I, mole amounts 1e-8·I·water, log quantities 1e-8 + the image of those through the buffer capacity. Per-litre vs per-kg-water equivalence is not "
-         "claimed (density iteration). Code quirk outside the listed families: eq/kgs is left out of the solute mass while eq/l is not.",
+         "convert_ignores_prior, convert_idempotent, read_mix_perm, read_mix_self, mix_perm, self_mix, mix_water_scaling, "
+         "mix_fraction_scaling; text layer (kernel-decided over the complete tables): documented_spellings_ok (69 documented spellings "
+         "canonicalise, in both copies of check_units, to the unit they denote), canonical_fixed, unit_table_complete, string_tests_agree "
+         "(the strstr / first-character tests of convert_units on the 27 canonical names = the structural predicates of the model), "
+         "fixup_is_check_units (27x27x2), spread_row_eq_block (a SPREAD row reads as the SOLUTION block it denotes); kernel-evaluated "
+         "instances. Correspondence, re-run every check: (a) units[] tables and replacement lists of read.cpp and Parser.cxx extracted "
+         "from the source = the model's; (b) both C++ check_units copies vs Txt.checkUnits on every documented spelling + seeded variants; "
+         "(c) real initial-solution runs (SOLUTION blocks and SOLUTION_SPREAD rows with units rows): the model reads the raw lines / cells "
+         "and the database weights (tools/dbparse.py) itself and must reproduce the engine's description, number, canonical units, `as`, "
+         "stored gfw and the totals map left by convert_units (density loop: real function re-invoked on the live state) at 1e-12; (d) real "
+         "add_mix / cxxSolution(mix) / multiply on real stored solutions vs the model. Exploration: base/transformed input pairs on the real "
+         "engine for units, water factor 1e-3..1e3, line and block permutations, renumbering, repeated lines/blocks, SOLUTION_SPREAD, MIX "
+         "reorder, self-mix (split lines, copies, any total amount), common factor on all fractions, nested mixing orders with SAVE vs the "
+         "direct n-way mix (mixed analyses not charge balanced, unequal water), and four-simulation SAVE/USE histories with exchange / "
+         "surface / gas / kinetics / equilibrium phases under monotone and arbitrary renumbering, block order and water factor (1e-8 rel, "
+         "extensive x k).",
+    note="Trusted: harness/ph_units.cpp (friend access, BASIC callback), tools/dbparse.py (element and master weights), the independent "
+         "oracle of protocol Q (tools/gens/units.py: own database reading + formula weights, used to restate a disagreeing case in the base "
+         "unit of its family), comparison logic. A tree on which the database does not load or every case is skipped is reported, not passed. "
+         "Partial: what follows the weight on a concentration line (redox couple, phase, SI) and the option lines of SOLUTION/"
+         "SOLUTION_SPREAD (temp, pH, water, density) are passed through, not modelled; a SPREAD column that fails to parse is dropped in the "
+         "model while the code stores the half-read component (input error either way); invariance of the Newton solve itself is exploration "
+         "only; pe is not compared (without a redox couple it is not determined by the input); floors (from the solver's acceptance "
+         "criteria, see floor_for): totals/molalities 1e-8*I, mole amounts 1e-8*I*water, log quantities 1e-8 + the image of those through "
+         "the buffer capacity. Per-litre vs per-kg-water equivalence is not claimed (density iteration). Code quirk outside the listed "
+         "families: eq/kgs is left out of the solute mass while eq/l is not.",
 )
